@@ -17,14 +17,15 @@ use std::sync::{Arc, Mutex};
 
 pub fn run(tier: Tier) -> i32 {
     let rep = Report::new("C08", tier);
-    rep.set_rule("A: breadth-first exploration (to closure where it closes, else to the reported depth) of the real receiver with memories of 1 and 2 slots and slots+3 buffers of pairwise distinct lengths, ops provision(each caller-owned buffer) / new_pdu / reset / decap(each of the 46 alphabet packets: every valid kind and one packet per rejection reason); oracle: multiset(free list + contexts + caller-owned incl. result and error payloads) is invariant on every transition and has no duplicates. B: in every explored state x every packet, each memory call of the decap is made to fail in turn (1 deviation; thorough: 2) through a wrapper implementing the public trait; same equation. distinct = (op, outcome)");
+    rep.set_rule("A: breadth-first exploration (to closure where it closes, else to the reported depth) of the real receiver with memories of 1, 2 and 3 slots (3: depth 5, thorough 7) and slots+3 buffers of pairwise distinct lengths, ops provision(each caller-owned buffer) / new_pdu / reset / decap(each of the 46 alphabet packets: every valid kind and one packet per rejection reason); oracle: multiset(free list + contexts + caller-owned incl. result and error payloads) is invariant on every transition and has no duplicates. B: in every explored state x every packet, each memory call of the decap is made to fail in turn (1 deviation; thorough: 2) through a wrapper implementing the public trait; same equation. distinct = (op, outcome)");
     rep.assume("buffer identity = length (pairwise distinct, content independent); free-buffer contents are normalised to zero between transitions (decap never reads them)");
     rep.assume("B: injected failures are those a contract-respecting memory may return at that call (underflow on new_pdu/new_frag, overflow handing the buffer back on provision_storage, undefined id leaving the memory unchanged on take_frag, refusal keeping the buffer inside the memory on save_frag)");
     let mut all_states: Vec<(usize, rxmodel::St)> = vec![];
-    for slots in [1usize, 2] {
+    // 3 slots: a table size that is not a power of two (depth-bounded in both tiers)
+    for slots in [1usize, 2, 3] {
         let buffers: Vec<usize> = (0..slots + 3).map(|i| 4 + i).collect();
         let sys = rxmodel::Sys::new(slots, 4, buffers, true);
-        let (max_states, max_depth) = if tier.thorough() { (4_000_000, 64) } else if slots == 1 { (400_000, 64) } else { (700_000, 9) };
+        let (max_states, max_depth) = if slots == 3 { (700_000, if tier.thorough() { 7 } else { 5 }) } else if tier.thorough() { (4_000_000, 64) } else if slots == 1 { (400_000, 64) } else { (700_000, 9) };
         let ex = explore(&sys, &Limits { max_states, max_depth }, &rep, &format!("receiver-{}-slots", slots));
         let k = ex.states.len();
         for i in [k / 2, k - 1] {
@@ -119,7 +120,7 @@ fn part_b(rep: &Report, tier: Tier, states: &[(usize, rxmodel::St)]) {
     let max_dev = if tier.thorough() { 2 } else { 1 };
     let stride = if tier.thorough() { 1 } else { (states.len() / 20_000).max(1) };
     let picked: Vec<&(usize, rxmodel::St)> = states.iter().step_by(stride).collect();
-    let alph: Vec<Vec<Pkt>> = vec![vec![], alphabet(1), alphabet(2)];
+    let alph: Vec<Vec<Pkt>> = vec![vec![], alphabet(1), alphabet(2), alphabet(3)];
     picked.par_chunks(64).for_each(|chunk| {
         if rep.over_time() {
             rep.cap("B: wall cap");
